@@ -89,6 +89,18 @@ theorem accepted_rollback_obeys_rule3 (m m' : MState) (client : String) (fate : 
     (m.get S client).client = client → (m.get S client).commitPointMaybe = false :=
   monitor_accepts_rollback m m' client fate S keys h
 
+/-- rule 4 (the resolver's side of the discipline of C02's `percolator_atomicity`): an accepted resolve of one transaction
+    names an outcome its sender LEARNED — as the owner whose primary commit succeeded at that ts, from a status answer of
+    the store, or from a check-secondary-locks answer; what a status answer means for the store is
+    `Props.C02.status_answers_justify_resolve` -/
+theorem accepted_resolve_obeys_rule4 (m m' : MState) (client : String) (fate : Fate) (S C : Nat)
+    (h : Monitor.step m (.resolve client fate S C []) = .ok m') :
+    let t := m.get S client
+    (0 < C → (t.client = client ∧ t.primaryCommitted = some C) ∨ (∃ a ∈ t.statusAnswers, a.1 = C) ∨ C ∈ t.secOutcomes ∨
+      (t.secMinCommits ≠ [] ∧ ¬ (0 ∈ t.secOutcomes) ∧ C = t.secMinCommits.foldl max 0)) ∧
+    (C = 0 → (∃ a ∈ t.statusAnswers, a.2 = true) ∨ 0 ∈ t.secOutcomes) :=
+  monitor_accepts_resolve m m' client fate S C h
+
 /-- rule 9: the op derived from a buffer entry is the one the property text prescribes, for all 64 fact combinations -/
 theorem init_mutations_spec (pess : Bool) (b : BufEntry) :
     initOp pess b = initOpTable pess b.hasValue b.value.isEmpty b.presumeNotExists b.newlyInserted b.locked :=
